@@ -100,12 +100,44 @@ func sortOwnSlice(c *Ctx, r *Report, rule string, want func(fn string) bool) {
 				return true
 			}
 			lit, ok := ast.Unparen(call.Args[1]).(*ast.FuncLit)
+			target := identObj(c, call.Args[0])
+			var factoryProblem string
 			if !ok {
-				return true
+				// sort.Slice(a, byKey(a)): the comparison made by a local closure factory from the slice it is given
+				fc, isCall := ast.Unparen(call.Args[1]).(*ast.CallExpr)
+				if !isCall || len(fc.Args) != 1 {
+					return true
+				}
+				fid, isId := ast.Unparen(fc.Fun).(*ast.Ident)
+				if !isId {
+					return true
+				}
+				var factory *ast.FuncLit
+				for _, cd := range localClosures(c, fd) {
+					if types.Object(cd.obj) == c.Info.Uses[fid] {
+						factory = cd.lit
+					}
+				}
+				if factory == nil || len(factory.Type.Params.List) != 1 || len(factory.Type.Params.List[0].Names) != 1 {
+					return true
+				}
+				var inner *ast.FuncLit
+				for _, st := range factory.Body.List {
+					if ret, isRet := st.(*ast.ReturnStmt); isRet && len(ret.Results) == 1 {
+						inner, _ = ast.Unparen(ret.Results[0]).(*ast.FuncLit)
+					}
+				}
+				if inner == nil {
+					return true
+				}
+				if target == nil || identObj(c, fc.Args[0]) != target {
+					factoryProblem = fmt.Sprintf("%s: the comparison is made for %s, not for the slice being sorted (%s)", c.pos(fc.Pos()), types.ExprString(fc.Args[0]), types.ExprString(call.Args[0]))
+				}
+				lit, ok = inner, true
+				target = c.Info.Defs[factory.Type.Params.List[0].Names[0]]
 			}
 			n++
 			construct := fmt.Sprintf("%s:%s(%s)#%d", name, cn, types.ExprString(call.Args[0]), n)
-			target := identObj(c, call.Args[0])
 			var params []types.Object
 			for _, f := range lit.Type.Params.List {
 				for _, id := range f.Names {
@@ -113,6 +145,9 @@ func sortOwnSlice(c *Ctx, r *Report, rule string, want func(fn string) bool) {
 				}
 			}
 			var problems []string
+			if factoryProblem != "" {
+				problems = append(problems, factoryProblem)
+			}
 			indexed := 0
 			ast.Inspect(lit.Body, func(n2 ast.Node) bool {
 				ix, ok := n2.(*ast.IndexExpr)
